@@ -138,7 +138,7 @@ def supported(img, enc):
         return False                                                      # F91 / F92
     if d == 16:
         return not straddles(img, enc)                                    # F90
-    return True
+    return len(S.serialise_packed(enc)) != 2 * S.iw(img) * S.ih(img)      # F34: the 32-bit raw test counts 2 bytes per pixel
 
 
 def in_quantifier(img, pad, enc, data):
